@@ -31,6 +31,9 @@ PROPS = {
     'C11': {'suites': hub_suite(), 'trusted_base': HUB_TB, 'rule': HUB_RULE,
             'assumptions': ['sdk.Dec.Mul rounding is modelled (round half to even); rate*(value*10^18) is exact, so the commission is a floor',
                             '(chain, external id) identifies one token info (ConvertToExternalValue looks the token up again by external id)']},
+    'C19': {'suites': hub_suite(hostile=False), 'trusted_base': HUB_TB, 'rule': HUB_RULE,
+            'assumptions': ['prices are inputs (x/oracle: C18); sdk.Dec arithmetic of the reimbursement is modelled (Mul/Quo round half even, QuoInt64/TruncateInt truncate)',
+                            'the per-user bound is stated for tokens with at most 18 external decimals (more: known finding)']},
     'C12': {'suites': hub_suite(hostile=False), 'trusted_base': HUB_TB, 'rule': HUB_RULE,
             'assumptions': ['chain ids are prefix-free', 'expiry is decided on whole-millisecond block times (the harness only uses such times)']},
     'C13': {'suites': hub_suite(hostile=False), 'trusted_base': HUB_TB, 'rule': HUB_RULE,
